@@ -63,7 +63,11 @@ func newRecCtx(extra bool) *recCtx {
 		c := r()
 		add1("TInt", "bool", "TBool", func(x int) bool { y := function.BoolI(x); *c = append(*c, "("+cInt(x)+", "+cBool(y)+")"); return y }, c)
 		d := r()
-		add1("TInt", "float", "TFloat", func(x int) float64 { y := function.FloatI(x); *d = append(*d, "("+cInt(x)+", "+cFloat(y)+")"); return y }, d)
+		add1("TInt", "float", "TFloat", func(x int) float64 {
+			y := function.FloatI(x)
+			*d = append(*d, "("+cInt(x)+", "+cFloat(y)+")")
+			return y
+		}, d)
 		for _, op := range []struct {
 			n string
 			f func(int, int) int
@@ -85,7 +89,11 @@ func newRecCtx(extra bool) *recCtx {
 		a := r()
 		add1("TFloat", "abs", "TFloat", func(x float64) float64 { y := math.Abs(x); *a = append(*a, "("+cFloat(x)+", "+cFloat(y)+")"); return y }, a)
 		b := r()
-		add1("TFloat", "str", "TString", func(x float64) *string { y := function.StrF(x); *b = append(*b, "("+cFloat(x)+", "+cStr(y)+")"); return y }, b)
+		add1("TFloat", "str", "TString", func(x float64) *string {
+			y := function.StrF(x)
+			*b = append(*b, "("+cFloat(x)+", "+cStr(y)+")")
+			return y
+		}, b)
 		c := r()
 		add1("TFloat", "int", "TInt", func(x float64) int { y := function.IntF(x); *c = append(*c, "("+cFloat(x)+", "+cInt(y)+")"); return y }, c)
 		for _, op := range []struct {
@@ -115,7 +123,11 @@ func newRecCtx(extra bool) *recCtx {
 		}{{"&", function.AndB}, {"|", function.OrB}, {"!=", function.XorB}, {"nand", function.NandB}} {
 			op := op
 			e := r()
-			add2("TBool", op.n, func(x, y bool) bool { z := op.f(x, y); *e = append(*e, "("+cBool(x)+", "+cBool(y)+", "+cBool(z)+")"); return z }, e)
+			add2("TBool", op.n, func(x, y bool) bool {
+				z := op.f(x, y)
+				*e = append(*e, "("+cBool(x)+", "+cBool(y)+", "+cBool(z)+")")
+				return z
+			}, e)
 		}
 	}
 	// string
@@ -134,7 +146,12 @@ func newRecCtx(extra bool) *recCtx {
 			}, a)
 		}
 		b := r()
-		add1("TString", "len", "TInt", func(x *string) int { xc := cp(x); y := function.LenS(x); *b = append(*b, "("+cStr(xc)+", "+cInt(y)+")"); return y }, b)
+		add1("TString", "len", "TInt", func(x *string) int {
+			xc := cp(x)
+			y := function.LenS(x)
+			*b = append(*b, "("+cStr(xc)+", "+cInt(y)+")")
+			return y
+		}, b)
 		e := r()
 		add2("TString", "+", func(x, y *string) *string {
 			xc, yc := cp(x), cp(y)
